@@ -7,10 +7,12 @@
 
 static int Nmax = 2, Lmax = 3;
 static char path[512];
-static int ins_pos, ins_indent; static char ins_c; static char ins_text[16];
+static int ins_pos, ins_indent; static char ins_c; static char ins_text[24];
 static int longmode;                 /* --p3 = 1: the comment line is long: a token of <= 2 structural characters sits at a buffer-size boundary of a line of 'a's */
 static const int LONG_AT[8] = { 8188, 8190, 8191, 8192, 16382, 16383, 16384, 32767 };
 static int long_at, long_total;
+/* --p3 = 2: the text comes from a list of strings that mean something to printf/scanf-style functions */
+static const char *FMT[10] = { "%", "%s", "%n", " load above 90%", "%2147483648d", "%%", " 100% sure", " %d %s %x", "%1$s", "\\n\\0" };
 static char alpha[12]; static int nalpha;
 
 static void build_alpha(void)
@@ -38,10 +40,13 @@ static void gen(void)
   ins_pos = mc_choose(n + 1);
   ins_indent = mc_choose(3);
   ins_c = cg.C[mc_choose((int)strlen(cg.C))];
+  if (longmode == 2) snprintf(ins_text, sizeof ins_text, "%s", FMT[mc_choose(10)]);
+  else {
   int len = longmode ? 1 + mc_choose(Lmax > 2 ? 2 : Lmax) : mc_choose(Lmax + 1);
   for (int i = 0; i < len; i++) ins_text[i] = alpha[mc_choose(nalpha)];
   ins_text[len] = 0;
-  if (longmode) { long_at = LONG_AT[mc_choose(8)]; long_total = mc_choose(2) ? 40000 : 0; }   /* the token ends the line, or the line goes on to 40000 characters */
+  }
+  if (longmode == 1) { long_at = LONG_AT[mc_choose(8)]; long_total = mc_choose(2) ? 40000 : 0; }   /* the token ends the line, or the line goes on to 40000 characters */
 }
 
 static int take(const char *content, size_t len, obs_cfg *o, sbuf *why, const char *what)
@@ -73,7 +78,7 @@ static void exec(void)
   cg_final_nl = 1;
   cg_render(&base);
   for (int i = 0; i <= cg_n; i++) {
-    if (i == ins_pos && longmode) {
+    if (i == ins_pos && longmode == 1) {
       size_t start = mod.len;                                        /* offset of the line in the file */
       sb_printf(&mod, "%s%c", indents[ins_indent], ins_c);
       while (mod.len - start < (size_t)long_at) sb_putc(&mod, 'a');
@@ -84,7 +89,7 @@ static void exec(void)
     if (i == ins_pos) sb_printf(&mod, "%s%c%s\n", indents[ins_indent], ins_c, ins_text);
     if (i < cg_n) { sb_puts(&mod, cg_l[i].text); sb_putc(&mod, '\n'); }
   }
-  if (longmode) { sb_puts(&sig, "base-file=\""); sb_put_esc(&sig, base.s, base.len); sb_printf(&sig, "\" long comment line: indent %d, char '%c', token \"", ins_indent, ins_c); sb_put_escs(&sig, ins_text); sb_printf(&sig, "\" at offset %d of a line of %d characters,", long_at, long_total ? long_total : long_at + (int)strlen(ins_text)); }
+  if (longmode == 1) { sb_puts(&sig, "base-file=\""); sb_put_esc(&sig, base.s, base.len); sb_printf(&sig, "\" long comment line: indent %d, char '%c', token \"", ins_indent, ins_c); sb_put_escs(&sig, ins_text); sb_printf(&sig, "\" at offset %d of a line of %d characters,", long_at, long_total ? long_total : long_at + (int)strlen(ins_text)); }
   else { sb_puts(&sig, "file=\""); sb_put_esc(&sig, mod.s, mod.len); sb_puts(&sig, "\""); }
   sb_printf(&sig, " inserted-line=%d delim=\"", ins_pos + 1); sb_put_escs(&sig, cg.D);
   sb_puts(&sig, "\" comment=\""); sb_put_escs(&sig, cg.Carg); sb_puts(&sig, "\"");
@@ -143,7 +148,7 @@ int main(int argc, char **argv)
   int complete = 1;
   for (int ci = 0; ci < CG_NCFG_WITH_ODD_COMMENT && complete; ci++) {
     int cfgi = (ci + CG_NCFG_WITH_DEFAULT_COMMENT) % CG_NCFG_WITH_ODD_COMMENT;      /* the odd comment sets first */
-    if (longmode && !mc_opt.thorough && cfgi % 7 != 0) continue;      /* quick: the four comment sets with delimiter "=" */
+    if (longmode == 1 && !mc_opt.thorough && cfgi % 7 != 0) continue;      /* quick: the four comment sets with delimiter "=" */
     mc_tag = cfgi;
     complete = mc_explore(gen, exec, 0, 0);
   }
